@@ -55,7 +55,8 @@ pub fn examine(ctx: &Ctx, out: &mut Out, text: &str, gtext: &str, origin: &str) 
     let unknowns = peeled.canonical.binders.len(I) > 0;
     let co = text.contains("#[coinductive]") || text.contains("#[auto]");
     for (name, choice) in solver_choices() {
-        if name == "recursive" && ((unknowns && co) || text.contains("if not")) {
+        let _ = (unknowns, co);
+        if name == "recursive" && text.contains("if not") {
             // F12 (coinductive unknowns) / F18 (negative cycles): the recursive solver does not return
             out.count("recursive_skipped_known_divergence");
             continue;
